@@ -60,3 +60,11 @@ chk('C04', 'model_checking',
     'free-space endpoints, P in {0,3,10}.',
     'Length resolution ~1e-3 (the statement asks 1e-6): shorter detours are not detected. P>0 optimality is over taut paths (DESIGN 1, reading (a)). One connector per router.',
     'TLA+ visibility-graph path model; trace validation of routes; TLC refutation search seeded with the implementation\'s length', '4/C04')
+
+chk('C03', 'model_checking',
+    'RouteValid.tla judges every displayed route (after nudging, with buffer, both modes): at least two points, starts/ends at the attachments, orthogonal segments axis-parallel, and no segment meets '
+    'the open interior of a shape not containing an endpoint -- decided exactly by the separating-axis theorem with orientation tests on the 2^-10 lattice, with a 2-unit tolerance that can only miss shallow '
+    'penetrations. The antecedent "an obstacle-free path exists" is decided by TLC reachability in PolyPath.tla for every suspicious record. Scenes: TLC-enumerated sets of <=2 rectangles / convex polygons '
+    '(touching and collinear sides included) and seeded random scenes (<=8 shapes, <=6 connectors, buffer 0|2, all nudging option combinations, ends inside shapes).',
+    'Known findings: F13 (option nudgeOrthogonalSegmentsConnectedToShapes moves free endpoints), F4, F23 (mitred buffer polygon at acute corners), F11 (nudging assertion).',
+    'TLA+ declarative route-validity specification (separating-axis predicate); record validation; TLC reachability for the antecedent', '4/C03')
